@@ -17,15 +17,37 @@ Definition is_thread_sleep (c : call) : bool := String.eqb (c_fn c) "sleep" && S
 Definition has_assertion (c : call) : bool :=
   existsb (fun a => has_prefix a (to_lower (c_fn c))) ASSERTION_LIST.
 
-(* BuildCallMethodMap: later same-named methods overwrite *)
+(* BuildCallMethodMap: every method under its full name and under full name # number of parameters; of several
+   candidates for one key the one declared first in the source is kept (the order of the functions of a type is not
+   fixed, the map is) *)
+Definition declared_before (a b : func) : bool :=
+  Nat.ltb (p_sl (f_pos a)) (p_sl (f_pos b)) ||
+  (Nat.eqb (p_sl (f_pos a)) (p_sl (f_pos b)) && Nat.ltb (p_sc (f_pos a)) (p_sc (f_pos b))).
+
+Definition put_first (m : gomap func) (k : string) (f : func) : gomap func :=
+  match mget m k with
+  | Some prev => if declared_before f prev then mput m k f else m
+  | None => mput m k f
+  end.
+
+Definition call_method_key (full : string) (n : nat) : string := full ++ "#" ++ string_of_nat n.
+
 Definition call_method_map (deps : list ds) : gomap func :=
-  fold_left (fun m d => fold_left (fun m f => mput m (func_full_name d f) f) (d_funcs d) m) deps [].
+  fold_left (fun m d =>
+               fold_left (fun m f =>
+                            put_first (put_first m (func_full_name d f) f)
+                                      (call_method_key (func_full_name d f) (List.length (f_params f))) f)
+                         (d_funcs d) m) deps [].
 
 (* updateMethodCallsForSelfCall: the calls of same-class helpers are appended (one level) *)
 Definition update_calls_for_self_call (f : func) (d : ds) (cmm : gomap func) : list call :=
   fold_left (fun cur mc =>
                if String.eqb (c_node mc) (d_node d) then
-                 match mget cmm (call_full_name mc) with
+                 (* the overload the number of arguments selects, else the method of that name *)
+                 match (match mget cmm (call_method_key (call_full_name mc) (List.length (c_params mc))) with
+                        | Some jm => Some jm
+                        | None => mget cmm (call_full_name mc)
+                        end) with
                  | Some jm => if String.eqb (f_name jm) "" then cur else (cur ++ f_calls jm)%list
                  | None => cur
                  end
